@@ -20,10 +20,10 @@ import (
 // C13Case exercises one transform on one block.
 type C13Case struct {
 	Transform string     `json:"transform"`
-	Direct    bool       `json:"direct"`             // per-codec constructor (true) or transform.New sequence of one (false)
-	Entropy   string     `json:"entropy"`            // selects TEXT codec 1/2 and RLT behaviour
-	DataType  int        `json:"data_type"`          // -1 absent, else internal.DataType value 0..9
-	Jobs      uint       `json:"jobs"`               // BWT
+	Direct    bool       `json:"direct"`    // per-codec constructor (true) or transform.New sequence of one (false)
+	Entropy   string     `json:"entropy"`   // selects TEXT codec 1/2 and RLT behaviour
+	DataType  int        `json:"data_type"` // -1 absent, else internal.DataType value 0..9
+	Jobs      uint       `json:"jobs"`      // BWT
 	Data      gen.Recipe `json:"data"`
 }
 
